@@ -342,6 +342,51 @@ def payload_table():
                         for k in list(pl.keys()):
                             if k not in keys_before:
                                 del pl[k]
+    # the same payload object again after it was changed in place: every
+    # event is judged on what the payload holds when the event is made
+    def attempt(path, et, pl):
+        sink = Sink()
+        prod = EventProducer()
+        prod.add_listener(et, sink)
+        try:
+            if path == "Event":
+                Event(et, pl, True)
+            elif path == "TimedEvent":
+                TimedEvent(1.5, et, pl, True)
+            elif path == "fire":
+                prod.fire(et, pl, True)
+            else:
+                prod.fire_timed(1.5, et, pl, True)
+            return True, len(sink.got)
+        except EventError:
+            return False, len(sink.got)
+        except Exception as ex:  # noqa
+            return "raised " + type(ex).__name__, len(sink.got)
+    GOOD = {2: {"a": 1}, 3: {"a": 1, "b": "t"}, 4: {"x": 1.5}, 5: {"a": True}}
+    EDITS = [("wrong-type", lambda d: d.__setitem__(sorted(d)[0], [0])),
+             ("deleted-key", lambda d: d.pop(sorted(d)[0])),
+             ("extra-key", lambda d: d.__setitem__("zz", 1)),
+             ("emptied", lambda d: d.clear())]
+    for i, good in GOOD.items():
+        for path in ("Event", "TimedEvent", "fire", "fire_timed"):
+            for first_path in (path, "fire"):
+                for ename, edit in EDITS:
+                    n += 1
+                    pl = dict(good)
+                    r1 = attempt(first_path, ets[i], pl)
+                    edit(pl)
+                    r2 = attempt(path, ets[i], pl)
+                    pl.clear()
+                    pl.update(good)
+                    r3 = attempt(path, ets[i], pl)
+                    case = (repr(decls[i]), repr(good), ename, first_path,
+                            path)
+                    if r1[0] is not True or r3[0] is not True:
+                        bad.append(("valid-event-refused-around-an-edit",
+                                    r1, r3) + case)
+                    if r2[0] is not False or r2[1] != 0:
+                        bad.append(("payload-edited-in-place-accepted-again",
+                                    r2) + case)
     # timestamps
     for ts in stamps:
         for path in ("TimedEvent", "fire_timed"):
